@@ -49,14 +49,18 @@ RULE = ('surface cases = (record of 1..400 samples (lengths 1,2,3 and around eve
         'rest, tail-heavy, monotone, one-sided, a single changed sample; the four trim x start results of one input related to '
         'each other; energy related to the integral of the motions and to the velocity of the signal; objects derived by the '
         'library from analysed objects (deepcopy+reset, interp/resample, combine_at_angle, Cluster member, real part of '
-        'fas2signal) analysed through the object-level entry points.')
+        'fas2signal) analysed through the object-level entry points. Wave 5: travel times m*dt/2, m = 1..40 (float products and '
+        'decimal literals, dt 0.01/0.005/0.02/0.025/awkward) on untrimmed records whose first and last samples are the largest; '
+        'extreme scales: motions, put, join on gen.special_scale records (1e-300..1e300, extreme range, ripple on a baseline, '
+        'counts above 2**24), energy on amplitudes 1e+-100..130.')
 ASSUMPTIONS = ['finite real records, dt > 0, travel times >= 0, stt >= 0',
                'reductions are both scalars or both ndarrays with one entry per travel time (list-typed, 0-d and mixed '
                'reductions and 0-d travel times are rejected by the library: outside the statement)',
                'placement rule for trim/start as read in DESIGN.md C19 (b): moves by floor(stt/dt) - floor(tau/dt) samples',
-               'on an INEXACT knife edge (2*tau/dt, tau/dt or stt/dt within 16 ulps of an integer without being one in '
-               'exact arithmetic on the given floats) either resolution of the first/last record sample and of the '
-               'floor is accepted; exact quotients are decided strictly',
+               'knife edges: a quotient (2*tau/dt, tau/dt, stt/dt, t/dt) whose binary64 evaluation IS an integer is a whole-sample '
+               'quantity and decided strictly (first and last sample of the delayed wave belong to the record); when the '
+               'evaluation lands within 16 ulps off an integer either resolution of the first/last record sample is accepted, '
+               'and k-1 or k for a floor whose quotient lies just below k',
                'join_values_w_shifts is judged for non-negative shifts only; join_sig_w_time_shift (Signal/AccSignal, ndarray '
                'times >= 0) is judged against the join by int(t/dt) samples: the floor of the exact quotient of the given '
                'floats, two-sided (k-1 or k) only when that quotient lies within 16 ulps below an integer k; and, for all '
@@ -1805,6 +1809,79 @@ def run_big_product(eqsig, ctx, rng, j):
         _put(eqsig, ctx, x[:m], rng.integers(-20, 21, size=41), ['none', 'both'][(j // 2) % 2])
 
 
+GRID_DT = [0.01, 0.005, 0.02, 0.025]
+
+
+def run_grid_case(eqsig, ctx, rng, j):
+    """Whole and half multiples of dt over the grid m = 1..40 (tau = m*dt/2, as float products and as decimal literals), for
+    several steps incl. awkward ones, on records whose FIRST and LAST samples are among the largest, untrimmed (so that the
+    samples after the end of the direct wave, where the delayed wave ends, are judged), start False/True."""
+    dt = GRID_DT[j % 4] if j % 5 else gen.awkward_dt(rng, int(rng.integers(2, 41)))
+    n = int([100, 50, 37, 64, 128, 99, 101][j % 7])
+    x, rcls = gen.record(rng, n, cls=['noise', 'sine', 'walk', 'quake', 'const', 'alt'][j % 6], amp=1.0)
+    top = float(np.max(np.abs(x))) + 1.0
+    x = x.copy()
+    x[0] = top * (1.0 if j % 2 else -1.2)
+    x[-1] = top * (1.5 if j % 3 else -1.0)
+    ms = np.arange(1, 41)
+    if j % 2:
+        taus = np.array([float('%.12g' % (m * dt / 2)) for m in ms])      # 0.005, 0.01, ..., 0.045, ...
+    else:
+        taus = ms * dt / 2
+    if j % 4 == 3:
+        taus = taus[::-1].copy()
+    c = {'values': x, 'dt': dt, 'travel_times': taus, 'tt_obj': np.array(taus), 'tt_container': 'ndarray', 'nodal': bool(j % 2 == 0),
+         'up_red': None if j % 3 else 0.5, 'down_red': None if j % 3 else 1.0, 'stt': [0.0, 3 * dt, float(taus[7])][j % 3],
+         'trim': False, 'start': bool((j // 2) % 2)}
+    ctx.case(core.digest(x, dt, taus, c['stt'], c['start']), nontrivial=True, cls='surface:grid-m=1..40(dt=%.4g)' % dt,
+             sample={'fn': 'energy+cum+motions', 'n': n, 'dt': dt, 'travel_times': taus[:6], 'start': c['start']})
+    _call(eqsig, ctx, 'calc_surface_energy', c)
+    _call(eqsig, ctx, 'get_time_shift_motions', c)
+    if j % 2:
+        _call(eqsig, ctx, 'calc_cum_abs_surface_energy', dict(c, trim=bool(j % 4 == 1)))
+    for m in (8, 9, 10, 12, int(rng.integers(1, 41))):     # single travel times (scalar form), the output ends with the delayed wave
+        _call(eqsig, ctx, 'calc_surface_energy', dict(c, travel_times=np.array([taus[m - 1]]), tt_obj=float(taus[m - 1]),
+                                                      tt_container='scalar'))
+
+
+def run_extreme_case(eqsig, ctx, rng, j):
+    """Extreme but valid scales. The motions and the array helpers are linear in the record: full range (1e-300..1e300, extreme
+    dynamic range inside one record, ripple on a baseline, counts above 2**24). The energy is a square: amplitudes within
+    1e-130..1e130 so that 0.5 v|v| and the tolerance terms stay normal doubles."""
+    n = int(rng.choice([2, 5, 13, 40, 100]))
+    x, rcls = gen.record(rng, n, allow_const=False, amp=1.0)
+    if not np.any(x):
+        x[0] = 1.0
+    dt = gen.dt(rng, 'nice')
+    k = int(rng.integers(1, 4))
+    taus = np.array([float(int(rng.integers(0, 2 * n + 1)) * dt / 2) if rng.random() < 0.6 else float(rng.uniform(0, n * dt))
+                     for _ in range(k)])
+    base = {'dt': dt, 'travel_times': taus, 'tt_obj': np.array(taus), 'tt_container': 'ndarray', 'nodal': bool(j % 2),
+            'up_red': None if j % 2 else float(rng.uniform(0.1, 1.0)), 'down_red': None if j % 2 else float(rng.uniform(0.1, 1.0)),
+            'stt': float(rng.choice([0.0, 2.5 * dt])), 'trim': bool(j % 3 == 0), 'start': bool(j % 4 == 1)}
+    xs, suffix = gen.special_scale(rng, x)
+    if np.all(np.isfinite(xs)) and np.max(np.abs(xs)) < 1e305:
+        c = dict(base, values=xs if j % 3 else [float(v) for v in xs])
+        ctx.case(core.digest(xs, dt, taus, 'motions'), nontrivial=True, cls='surface:motions' + (suffix or '-plain'),
+                 sample={'fn': 'get_time_shift_motions', 'n': n, 'dt': dt, 'scale_class': suffix, 'head': xs[:4]})
+        _call(eqsig, ctx, 'get_time_shift_motions', c)
+        _rel_batch(eqsig, ctx, 'get_time_shift_motions', c)
+        sh = rng.integers(-4, 5, size=int(rng.integers(1, 5)))
+        for clip in ('none', 'both'):
+            _put(eqsig, ctx, c['values'], sh, clip)
+        _join(eqsig, ctx, c['values'], np.abs(sh), 'sub' if j % 2 else 'add')
+        _join_sig(eqsig, ctx, c['values'], dt, np.abs(sh) * dt, 'add' if j % 2 else 'sub', cls='AccSignal' if j % 2 else 'Signal')
+    amp = 10.0 ** (float(rng.choice([-1.0, 1.0])) * rng.uniform(100, 130))
+    xe = x / float(np.max(np.abs(x))) * amp
+    ce = dict(base, values=xe)
+    ctx.case(core.digest(xe, dt, taus, 'energy'), nontrivial=True, cls='surface:energy-extreme-scale(1e+-100..130)',
+             sample={'fn': 'calc_cum_abs_surface_energy', 'n': n, 'dt': dt, 'amp': amp})
+    cum = _call(eqsig, ctx, 'calc_cum_abs_surface_energy', ce)
+    if cum is not None:
+        _rel_alpha(eqsig, ctx, ce, [2.0, -0.5, 4.0][j % 3], base=cum)
+        _rel_batch(eqsig, ctx, 'calc_surface_energy', ce)
+
+
 def run_long_case(eqsig, ctx, rng, j):
     """A few long inputs past 2**16 samples."""
     n = 2 ** 16 + int(rng.integers(1, 40))
@@ -1981,7 +2058,7 @@ def values_container(rng, vals):
 
 
 VALUE_KINDS = ['float64', 'float64-int', 'int64', 'uint8', 'uint16', 'int8', 'int16', 'int32', 'float32', 'float32-huge',
-               'float64-tiny', 'float64-huge']
+               'float64-tiny', 'float64-huge', 'special-scale']
 
 
 def draw_values(rng, n, vk=None):
@@ -1991,6 +2068,9 @@ def draw_values(rng, n, vk=None):
         vk = VALUE_KINDS[int(rng.integers(len(VALUE_KINDS)))]
     if vk == 'float64':
         return rng.normal(size=n), vk
+    if vk == 'special-scale':
+        v, suf = gen.special_scale(rng, rng.normal(size=n) + (0.0 if n > 1 else 1.0))
+        return (v, 'float64' + (suf or '')) if np.all(np.isfinite(v)) and np.max(np.abs(v)) < 1e305 else (rng.normal(size=n), 'float64')
     if vk == 'float64-tiny':
         return rng.normal(size=n) * 1e-12, vk
     if vk == 'float64-huge':
@@ -2050,6 +2130,10 @@ def run_shard(ctx):
         run_long_case(eqsig, ctx, rng, j + ctx.shard)
     for j in range(7 if quick else 120):
         run_many_tau(eqsig, ctx, rng, j * ctx.nshards + ctx.shard)
+    for j in range(3 if quick else 50):
+        run_grid_case(eqsig, ctx, rng, j * ctx.nshards + ctx.shard)
+    for j in range(20 if quick else 350):
+        run_extreme_case(eqsig, ctx, rng, j * ctx.nshards + ctx.shard)
     if ctx.shard < (4 if quick else 16):
         run_big_product(eqsig, ctx, rng, ctx.shard)
     # -- shifts: exhaustive small vectors -----------------------------------------------------------------------------
